@@ -224,6 +224,7 @@ func Execute(t *testing.T, sc *Scenario, dec *Decider, obs ...Observer) (*RunRes
 			k.Run()
 		})
 	}()
+	stallFreeRun = sc.Knobs.FreeRun
 	if stacks := waitBubble(done, k); stacks != "" {
 		// The bubble is abandoned: its goroutines stay blocked (or spinning) until
 		// the process ends, and nothing of the controller's state is read. The
@@ -297,11 +298,20 @@ var LastLogs [][]string
 var AbandonedRuns int
 
 func realStallLimit() time.Duration {
+	d := 30 * time.Second
 	if v, err := strconv.Atoi(os.Getenv("VERIF_REAL_STALL_S")); err == nil && v > 0 {
-		return time.Duration(v) * time.Second
+		d = time.Duration(v) * time.Second
 	}
-	return 30 * time.Second
+	if RaceBuild {
+		d *= 10 // the race detector slows csvq down by an order of magnitude
+	}
+	if stallFreeRun {
+		d *= 40 // a free-running pass is one single controller turn for the whole program
+	}
+	return d
 }
+
+var stallFreeRun bool
 
 // waitBubble waits for the bubble to end. It runs outside the bubble, so its
 // ticker is real time. If the controller has not had a turn for the stall
